@@ -511,6 +511,166 @@ def k3_flag_sources(rep: Report) -> None:
         rep.candidate(key_, f"{ostr} vs config key {key} = {w}: parse_section gives {got}, expected {want}", {"flag": ostr, "value": w}, replay)
 
 
+# --- K5: inline '# mypy:' configuration reaches the parser when files are parsed as a batch
+def k5_inline_batch(rep: Report) -> None:
+    """BuildManager.parse_all (native-parser branch) run from source on duck states.  The solver chooses
+    how many files are in the batch, which of them were parsed already, which carry raw data and which
+    have inline configuration, and whether workers are used.  Obligation: every file that is
+    deserialised is deserialised under its *own* path and under the options object that
+    apply_inline_configuration has installed for it (inline comments are applied last, per file)."""
+    import contextlib
+
+    K = Kernel("mypy.build", ["BuildManager.parse_all"], closure=False)
+    rep.kernels_from(K)
+    fn = K["BuildManager.parse_all"]
+    ctx = Ctx(max_paths=500000)
+    found: dict = {}
+    n = {"loaded": 0, "inline": 0}
+
+    def body(c: Ctx) -> None:
+        nst = 2 + c.choose("files_in_batch", 2)
+        loads: list = []
+
+        class Raw:
+            def __init__(self, comments: list):
+                self.source_hash = "H"
+                self.mypy_comments = comments
+                self.defs: list = []
+
+        class Tree:
+            def __init__(self, raw: Any):
+                self.raw_data = raw
+
+        class St:
+            def __init__(self, i: int):
+                self.id = f"m{i}"
+                self.xpath = f"m{i}.py"
+                self.options = f"options-of-m{i}-before-inline"
+                self.tree: Any = Tree(None) if bool(c.bool(f"m{i}_already_parsed")) else None
+                self.has_inline = bool(c.bool(f"m{i}_has_inline_config"))
+                self.raw = bool(c.bool(f"m{i}_has_raw_data"))
+                self.needs_parse = True
+                self.source_hash = None
+                self.source = None
+                self.early_errors: list = []
+                self.size_hint = 0
+
+            def wrap_context(self) -> Any:
+                return contextlib.nullcontext()
+
+            def apply_inline_configuration(self, comments: Any) -> None:
+                if comments:
+                    self.options = f"options-of-{self.id}-after-inline"
+                    n["inline"] += 1
+
+            def get_source(self) -> str:
+                return ""
+
+            def parse_file(self) -> None:
+                self.tree = Tree(None)
+
+            def semantic_analysis_pass1(self) -> None:
+                pass
+
+            def check_blockers(self) -> None:
+                pass
+
+            def setup_errors(self) -> None:
+                pass
+
+        states = [St(i) for i in range(nst)]
+
+        class Errs:
+            error_info_map: dict = {}
+
+            @staticmethod
+            def is_blockers() -> bool:
+                return False
+
+        class FS:
+            @staticmethod
+            def exists(p: str, real_only: bool = False) -> bool:
+                return True
+
+        class Opts:
+            native_parser = True
+
+        class Mgr:
+            options = Opts
+            fscache = FS
+            shadow_map: dict = {}
+            errors = Errs
+            workers = ["w"] if bool(c.bool("parallel_workers")) else []
+            ast_cache: dict = {}
+            modules: dict = {}
+
+            @staticmethod
+            def log(*a: Any) -> None:
+                pass
+
+            @staticmethod
+            def post_parse_all(sts: list) -> None:
+                pass
+
+            @staticmethod
+            def parse_files_threaded_raw(sts: list) -> tuple:
+                for st in sts:
+                    st.tree = Tree(Raw(["# mypy: x"] if st.has_inline else []) if st.raw else None)
+                return list(sts), set(sts)
+
+        def load_from_raw(path: str, id_: str, raw: Any, errors: Any, options: Any, imports_only: bool = False) -> Any:
+            loads.append((path, id_, options, imports_only))
+            return Tree(raw if imports_only else None)
+
+        K.ns["load_from_raw"] = load_from_raw
+        K.ns["MIN_SIZE_HINT"] = 1
+        mg = Mgr()
+        mg.ast_cache, mg.modules = {}, {}
+        fn(mg, states)
+        by_id = {st.id: st for st in states}
+        n["loaded"] += len(loads)
+        c.stats["assert_queries"] += 1
+        bad = None
+        for path, id_, options, imports_only in loads:
+            st = by_id[id_]
+            want = f"options-of-{id_}-after-inline" if st.has_inline else f"options-of-{id_}-before-inline"
+            if path != st.xpath:
+                bad = f"{id_} deserialised under the path {path}"
+            elif options != want:
+                bad = f"{id_} deserialised under {options!r} instead of {want!r}"
+            elif imports_only != bool(mg.workers):
+                bad = f"{id_}: imports_only={imports_only} with workers={bool(mg.workers)}"
+        if bad is None:
+            c.stats["discharged"] += 1
+        else:
+            c.stats["refuted"] += 1
+            cls = "batch parsing: a file is deserialised under options that do not include its inline configuration" if "instead of" in bad else "batch parsing: " + bad.split(" ", 1)[1][:60]
+            found.setdefault(cls, (bad, c.path_model()))
+
+    ctx.explore(body)
+    rep.add_ctx("K5 inline configuration in batch parsing (BuildManager.parse_all)", ctx, deserialisations=n["loaded"], inline_applied=n["inline"])
+    rep.twin("K5: deserialisations with inline configuration reached", n["loaded"] > 0 and n["inline"] > 0)
+    for key, (bad, m) in found.items():
+        rep.sample({"kernel": "parse_all", "class": key, "detail": bad, "model": m})
+
+        def replay(d: str, bad: str = bad) -> tuple[bool, str]:
+            # real run: two files parsed in one batch by the native parser, one with an inline option that
+            # changes how its AST is built / checked; compare with checking that file under the flag
+            files = {"a.py": "# mypy: implicit-optional\ndef f(x: int = None) -> None: ...\n", "b.py": "import a\ndef g(y: int) -> None: ...\n"}
+            for fn_, text in files.items():
+                with open(os.path.join(d, fn_), "w") as f:
+                    f.write(text)
+            env = dict(os.environ)
+            env.pop("PYTHONPATH", None)
+            outs = []
+            for flags in (["--native-parser"], []):
+                p = subprocess.run([sys.executable, "-m", "mypy", "--no-incremental", "--no-error-summary"] + flags + ["a.py", "b.py"], cwd=d, env=env, capture_output=True, text=True, timeout=300)
+                outs.append((p.returncode, (p.stdout + p.stderr).strip()))
+            return outs[0] != outs[1], f"{bad}; real runs on a two-file batch with an inline option that shapes the AST: native parser {outs[0]}, default parser {outs[1]}"
+
+        rep.candidate(key, bad, m, replay)
+
+
 def main(args: Any) -> int:
     rep = Report(PID, args.tier, "z3 regular-expression equivalence for the glob semantics (unbounded name length); symbolic execution (symx/z3) of the real per-module option resolution with solver-chosen section sets and symbolic option values; replay with real mypy.ini files")
     import mypy.build  # noqa: F401
@@ -530,6 +690,9 @@ def main(args: Any) -> int:
     if only is None or "K3" in only:
         k3_flag_sources(rep)
         rep.bounds.append("K3: every boolean flag of the real command-line table x config value true/false x ini (5 spellings each) / toml; one key per section")
+    if only is None or "K5" in only:
+        k5_inline_batch(rep)
+        rep.bounds.append("K5: batches of 2-3 files; already parsed / raw data present / inline configuration present per file and worker mode symbolic")
     if only is None or "K4" in only:
         k4_toml_overrides(rep)
     return rep.finish()
